@@ -535,9 +535,19 @@ fn run_transport(
                                     .expect_err("client mapped to existing token!");
                             }
                             Err(ref e) if would_block(e) => break,
+                            // The peer gave up on its connection before we got to it (or the call
+                            // was interrupted): that connection is gone, the listener is fine.
+                            Err(ref e)
+                                if e.kind() == io::ErrorKind::ConnectionAborted
+                                    || e.kind() == io::ErrorKind::Interrupted =>
+                            {
+                                continue
+                            }
                             Err(e) => {
+                                // Anything else (e.g. running out of file descriptors) must not take
+                                // the exporter down for the clients that are already connected.
                                 error!("caught error while accepting client connections: {:?}", e);
-                                return;
+                                break;
                             }
                         }
                     }
